@@ -1528,11 +1528,19 @@ class GroupBy:
                 if mask is not None:
                     index = index[mask[indexer]]
 
-        series = (
-            self._convert_arr_to_pandas_series(arr, orig_type, index)
-            for arr, orig_type in zip(arrays, type_list)
-        )
-        result_df = pd.DataFrame(dict(zip(result_col_names, series)))
+        if transform and self._values_is_polars(type_list):
+            # the container follows the input, as for the other transforms
+            series = (
+                self._convert_arr_to_polars_series(arr, orig_type)
+                for arr, orig_type in zip(arrays, type_list)
+            )
+            result_df = pl.DataFrame(dict(zip(result_col_names, series)))
+        else:
+            series = (
+                self._convert_arr_to_pandas_series(arr, orig_type, index)
+                for arr, orig_type in zip(arrays, type_list)
+            )
+            result_df = pd.DataFrame(dict(zip(result_col_names, series)))
 
         result = self._maybe_squeeze_to_1d(
             result_df, values=values, n_values=len(value_list)
